@@ -123,6 +123,24 @@ pub struct Variant {
     /// bits are honoured), not as root
     #[serde(default)]
     pub unprivileged: bool,
+    /// the simulated process is started in this directory (relative to the run root: "" or "ws")
+    /// and is given its arguments as relative paths
+    #[serde(default)]
+    pub cwd: Option<String>,
+}
+
+/// An argument (relative to the run root) as typed from the working directory `cwd`.
+pub fn relative_arg(arg: &str, cwd: &str) -> String {
+    if cwd.is_empty() {
+        return arg.to_string();
+    }
+    if arg == cwd {
+        return ".".to_string();
+    }
+    match arg.strip_prefix(&format!("{cwd}/")) {
+        Some(rest) => rest.to_string(),
+        None => format!("../{arg}"),
+    }
 }
 
 #[derive(Clone, Debug, Serialize, Deserialize, PartialEq)]
@@ -413,7 +431,11 @@ pub fn exec_variant(world: &World, v: &Variant) -> Obs {
     lay_out(world, v);
     let r = root().to_path_buf();
     let hooks = SimHooks::new(&r, v.dir_seed, v.faults.clone());
-    let args: Vec<PathBuf> = v.args.iter().map(|a| r.join(a)).collect();
+    let args: Vec<PathBuf> = match &v.cwd {
+        Some(c) => v.args.iter().map(|a| PathBuf::from(relative_arg(a, c))).collect(),
+        None => v.args.iter().map(|a| r.join(a)).collect(),
+    };
+    let cwd = v.cwd.as_ref().map(|c| r.join(c));
     let entry = v.entry;
     let texts: Vec<(PathBuf, String)> = v.files.iter().map(|f| (r.join("ws").join(&f.name), file_text(world, f))).collect();
     let root_str = r.to_string_lossy().to_string();
@@ -432,6 +454,10 @@ pub fn exec_variant(world: &World, v: &Variant) -> Obs {
     let hash_seed = v.hash_seed;
     let unprivileged = v.unprivileged;
     let forked = crate::seam::run_forked(move || {
+    if let Some(dir) = &cwd {
+        // (the working directory is process-wide: this is a forked child)
+        let _ = std::env::set_current_dir(dir);
+    }
     if unprivileged && !crate::seam::drop_privileges() {
         // (the worker checked at start that this works)
         unsafe { libc::_exit(97) };
